@@ -199,6 +199,21 @@ def handleOp (st : St) (f : String) (j : Json) : Except String (St × Json) := d
       let st' := setSeq st c m.chan (seq + 1)
       pure (finish st' c w1 [("r", "ok"), ("seq", toString seq), ("pkt", pktJson p)])
     | other => pure (st, failJson other)
+  | "sendv2" =>
+    let c ← nat j "chain"
+    let client := (← str j "chan").toList
+    let data : PacketData := ⟨(← str j "denom").toList, ← nat j "amount", (← str j "sender").toList,
+      (← str j "receiver").toList, (← str j "memo").toList⟩
+    let signer := (← str j "signer").toList
+    let ce := optStr j "coreErr"
+    let coreErr := if ce == "" then none else some ce
+    let seq := getSeq st c client
+    let (w1, r) := step st.cfg st.w (.sendV2 c signer client data coreErr seq)
+    match r with
+    | .sent p =>
+      let st' := setSeq st c client (seq + 1)
+      pure (finish st' c w1 [("r", "ok"), ("seq", toString seq), ("pkt", pktJson p)])
+    | other => pure (st, failJson other)
   | "recv" =>
     let c ← nat j "chain"; let id := (← str j "chan").toList; let seq ← nat j "seq"
     let elapsed ← bool j "elapsed"
